@@ -73,6 +73,22 @@ pub fn check(t: &Trace<'_>, out: &mut CaseOut) -> bool {
         }
         out.count("connections_judged", 1);
         let pings: Vec<&crate::refcodec::CRec> = c.out.packets.iter().filter(|p| matches!(p.pkt, CPacket::PingReq)).collect();
+        // virtual time at which the transport accepted the first byte of the packet that begins at
+        // stream offset `start`
+        let first_byte_at = |start: usize| -> u64 {
+            let mut sent = 0usize;
+            for e in &w.events {
+                if let Ev::Io { conn, kind: crate::world::IoKind::Write, ans: IoAns::Bytes(k), t, .. } = e {
+                    if *conn == ci.idx {
+                        sent += *k;
+                        if sent > start {
+                            return *t;
+                        }
+                    }
+                }
+            }
+            u64::MAX
+        };
         // (event index, time) of every PINGRESP the client consumed; order is decided by event
         // index because several things can happen at one virtual instant
         // A PINGRESP counts as received when it reached the transport while the application was
@@ -176,7 +192,10 @@ pub fn check(t: &Trace<'_>, out: &mut CaseOut) -> bool {
                 nontrivial = true;
                 let d = disc.iter().find(|o| o.t_ret >= tp && !external_cause(o));
                 match d {
-                    Some(d) if d.t_ret < tp + RTT && busy_all.iter().any(|(a, b)| *b <= tp && *a + RTT <= d.t_ret) => out.violations.push(viol("C10", "C10/timeout-early/transport-busy-while-writing-pingreq", format!("conn {}: PINGREQ flushed at {} after the transport had been busy, Disconnected reported at {} (< {} us later: the bound was counted from before the pause)", ci.idx, tp, d.t_ret, RTT))),
+                    // (the known finding: the pause lies inside the PINGREQ's own write - between its
+                    // two bytes -, after the service pass that writes it had sampled the clock; a
+                    // pause in an earlier packet of the same call is no excuse)
+                    Some(d) if d.t_ret < tp + RTT && busy_all.iter().any(|(a, b)| *b <= tp && *a + RTT <= d.t_ret && *a >= first_byte_at(p.start)) => out.violations.push(viol("C10", "C10/timeout-early/transport-busy-while-writing-pingreq", format!("conn {}: PINGREQ flushed at {} after the transport had been busy, Disconnected reported at {} (< {} us later: the bound was counted from before the pause)", ci.idx, tp, d.t_ret, RTT))),
                     Some(d) if d.t_ret < tp + RTT => out.violations.push(viol("C10", "C10/timeout-early", format!("conn {}: PINGREQ flushed at {}, Disconnected reported at {} (< {} us later)", ci.idx, tp, d.t_ret, RTT))),
                     // (a client stuck in a busy transport cannot report anything until the write returns)
                     Some(_) | None if !continuous && !disc.iter().any(|o| o.t_ret >= tp && o.t_ret < tp + RTT) => {}
@@ -230,7 +249,7 @@ pub fn check(t: &Trace<'_>, out: &mut CaseOut) -> bool {
                 // time at which it began the service pass, not with the time the flush completed
                 let stale_stamp = pings.iter().any(|p| {
                     let tp = if p.t_flushed != u64::MAX { p.t_flushed } else { p.t_done };
-                    busy_all.iter().any(|(a, b)| *b <= tp && *a + RTT <= d.t_ret && d.t_ret < tp + RTT) && !resps.iter().any(|r| r.0 > p.ev && r.1 <= d.t_ret)
+                    busy_all.iter().any(|(a, b)| *b <= tp && *a + RTT <= d.t_ret && d.t_ret < tp + RTT && *a >= first_byte_at(p.start)) && !resps.iter().any(|r| r.0 > p.ev && r.1 <= d.t_ret)
                 });
                 let sig = if stale_stamp { "C10/timeout-early/transport-busy-while-writing-pingreq" } else { "C10/spurious-timeout" };
                 out.violations.push(viol("C10", sig, format!("conn {}: wait ended with Disconnected at {} although no PINGREQ was unanswered for {} us", ci.idx, d.t_ret, RTT)));
